@@ -235,7 +235,7 @@ func init() {
 		Families: func(tier string) []Family {
 			return mkFamilies(famOpt{announced: true, chains: bothChain, roles: makers, backends: []bool{false},
 				flags:  scn.Flags{Blocks: true, Time: true, Restart: true, Drop: true, Inject: true, PayPlan: false, MaxTime: 4, MaxBlocks: 2, NoWinJump: true, TimeAlways: true},
-				bounds: pick(tier, mc.Bounds{MaxDepth: 6, MaxDev: 2, Budget: 80 * time.Second, CrashAfterStore: true}, mc.Bounds{MaxDepth: 8, MaxDev: 3, Budget: 10 * time.Minute}),
+				bounds: pick(tier, mc.Bounds{MaxDepth: 6, MaxDev: 2, Budget: 80 * time.Second, CrashAfterStore: true, NoCrashFirst: true}, mc.Bounds{MaxDepth: 8, MaxDev: 3, Budget: 10 * time.Minute}),
 				tweak: func(f *Family) {
 					// the refund (or claim) broadcast may fail once, or for longer than the retry budget
 					f.Cfg.Flags.Faults = []string{f.Cfg.Chain + ".spend", f.Cfg.Chain + ".spend*25", "msg.send*25"}
